@@ -3,6 +3,7 @@ pub mod components;
 pub mod core;
 mod display;
 mod parser;
+pub use parser::zerv_ron_options;
 pub mod schema;
 pub mod utils;
 pub mod vars;
